@@ -126,15 +126,6 @@ theorem C14_guards_exact (cfg : J) (r : NumRule) (hr : r ∈ numRules ValidRules
       simp [this]
     · simp [hf]
 
-/-- The Lean monitors the harness evaluates on generated inputs can never fail while the table
-theorems hold: for every input, `allRangeOk` and `allRejectOk` are true. -/
-theorem C14_monitors_hold (cfg : J) : allRangeOk cfg = true ∧ allRejectOk cfg = true := by
-  constructor
-  · exact List.all_eq_true.mpr (fun r hr => by
-      rw [Bool.and_eq_true]
-      exact ⟨C14_ranges_sound cfg r hr, C14_ranges_sound_normalised cfg r hr⟩)
-  · exact List.all_eq_true.mpr (fun r hr => C14_guards_exact cfg r hr)
-
 /-- Non-vacuity: the table has numeric rules, and a concrete input fires one of them. -/
 example : (numRules ValidRules.rules).length > 50 := by decide
 
@@ -142,8 +133,8 @@ example : (numRules ValidRules.rules).length > 50 := by decide
 
 /-- Every enumeration rule accepts exactly the members its message documents. -/
 theorem C14_enum_docs_match :
-    (enumRules ValidRules.rules).all (fun r => r.docAllowed.isEmpty || sameMembers r.docAllowed r.allowed) = true := by
-  decide
+    allEnum.all (fun r => r.docAllowed.isEmpty || sameMembers r.docAllowed r.allowed) = true := by
+  decide +kernel
 
 /-- An enumeration rule that does not fire has a rendered value inside the allowed set. -/
 theorem C14_enum_sound (e : Env) (r : EnumRule) (ha : condsHold e r.conds = true) (hf : r.fires e = false) :
@@ -155,6 +146,51 @@ theorem C14_enum_sound (e : Env) (r : EnumRule) (ha : condsHold e r.conds = true
   · rename_i s hs
     exact ⟨s, hs, by simpa using hf⟩
   · cases hf
+
+/-- Whenever a rule tests a case-folded copy (`str(x).lower()`), that folded copy is what the code
+stores at the rule's output path (structural fact recomputed from the AST: an assignment
+`X["<key>"] = <tested expression>` follows the check, or the tested expression is the cell itself). -/
+theorem C14_enum_folded_written_back :
+    allEnum.all (fun r => !r.lower || r.folded) = true := by decide +kernel
+
+/-- **accepted ⇒ the NORMALISED value at the rule's output path ∈ the documented set**, for every
+input and every enumeration check of the current code (typed rules and the checks whose message
+formats the value, e.g. `t2.backend`, `t3.backend`).  The harness evaluates `EnumRule.outOk` — the
+same membership, plus equality with `normalised` — on the config the real validator returns. -/
+theorem C14_enum_sound_normalised (cfg : J) (r : EnumRule) (hr : r ∈ allEnum) :
+    r.outRangeOk (env cfg) = true := by
+  have hf := List.all_eq_true.mp C14_enum_folded_written_back r hr
+  have hlf : (r.lower && r.folded) = r.lower := by
+    cases hl : r.lower <;> cases hd : r.folded <;> simp_all
+  unfold EnumRule.outRangeOk
+  by_cases ha : condsHold (env cfg) r.conds = true
+  · by_cases hfire : r.fires (env cfg) = true
+    · simp [hfire]
+    · have hfire' : r.fires (env cfg) = false := by simpa using hfire
+      obtain ⟨s, hs, hc⟩ := C14_enum_sound (env cfg) r ha hfire'
+      have hn : r.normalised (env cfg) = some s := by
+        unfold EnumRule.normalised
+        rw [hlf]; exact hs
+      rw [hn]
+      simp only [hc, Bool.or_true]
+  · simp [ha]
+
+/-- What the folded-but-not-written-back form does: `LanceDB` passes the test on its lower-cased
+copy while the raw spelling — outside the documented set — is what stays in the config. -/
+example : (pyStr true (some (.str [76, 97] [108, 97] none none)) = some [108, 97]) ∧
+    (pyStr false (some (.str [76, 97] [108, 97] none none)) = some [76, 97]) := by decide
+
+/-- The Lean monitors the harness evaluates on generated inputs can never fail while the table
+theorems hold: for every input, `allRangeOk` and `allRejectOk` are true. -/
+theorem C14_monitors_hold (cfg : J) : allRangeOk cfg = true ∧ allRejectOk cfg = true := by
+  constructor
+  · unfold allRangeOk
+    simp only [Bool.and_eq_true]
+    exact ⟨List.all_eq_true.mpr (fun r hr => by
+      rw [Bool.and_eq_true]
+      exact ⟨C14_ranges_sound cfg r hr, C14_ranges_sound_normalised cfg r hr⟩),
+      List.all_eq_true.mpr (fun r hr => C14_enum_sound_normalised cfg r hr)⟩
+  · exact List.all_eq_true.mpr (fun r hr => C14_guards_exact cfg r hr)
 
 /-! ## Hash-order independence -/
 
